@@ -710,7 +710,11 @@ def check(P: Project, R: Report) -> None:
 
     # which exception reaches which arm is read off the `except` clauses; a handler that sorts the caught exception out
     # itself (`except Exception as e: if isinstance(e, TimeoutError): …`) hides that from these rules: undecided, not a finding
-    for t_ in walk_local(send.node):
+    try:
+        send_as_written = P.raw_view().func(send.module.name, send.qual).node  # (a predicate helper read in at its call site is not the handler sorting things out itself)
+    except Exception:
+        send_as_written = send.node
+    for t_ in walk_local(send_as_written):
         if isinstance(t_, ast.Try):
             for h_ in t_.handlers:
                 if h_.name and any(isinstance(c_, ast.Call) and call_name(c_) == "isinstance" and c_.args and ast.unparse(c_.args[0]) == h_.name for b_ in h_.body for c_ in walk_local(b_)):
